@@ -198,3 +198,45 @@ func c03CommitFault(tier string, seed int64, idx int, scratch string) rt.CaseRes
 	}
 	return c
 }
+
+func init() {
+	p := Registry["C03"]
+	p.Roles["doubleend"] = Role{N: func(t string) int { return tierN(t, 8, 64) }, Case: c03DoubleEnd}
+	p.Rule += " Role doubleend: Commit||Commit and Commit||Rollback on one transaction, released together by a spin barrier (600-2000 rounds per case, all levels, inline and gRPC): a Commit that returned nil has made the transaction's write the committed value, if no Commit returned nil nothing changed, and two Commits never both succeed."
+}
+
+// c03DoubleEnd: a Commit that says nil has committed, also when another goroutine ends the same
+// transaction at the same moment.
+func c03DoubleEnd(tier string, seed int64, idx int, scratch string) rt.CaseResult {
+	var c rt.CaseResult
+	mode := dbx.Inline
+	if idx%4 == 3 {
+		mode = dbx.Grpc
+	}
+	env, err := dbx.Open(dbx.Options{Mode: mode, Dir: filepath.Join(scratch, "db")})
+	if err != nil {
+		c.Violate("open-failed", err.Error(), nil)
+		return c
+	}
+	defer env.Close()
+	rng := seqrun.Rng(seed, "C03d", idx)
+	curD := "<" + string(refmodel.NotFound) + ">"
+	rounds := tierN(tier, 600, 2000)
+	if mode == dbx.Grpc {
+		rounds /= 4
+	}
+	for it := 0; it < rounds; it++ {
+		if it%32 == 0 {
+			rt.Beat()
+		}
+		var bad bool
+		curD, bad = doubleEnd(&c, env, rng, fmt.Sprintf("e%d-%d", idx, it), curD, it%2, "C03")
+		if bad {
+			return c
+		}
+	}
+	if idx == 0 {
+		c.Sample = map[string]any{"scenario": "Commit||Commit and Commit||Rollback on one transaction", "rounds": rounds}
+	}
+	return c
+}
